@@ -214,6 +214,23 @@ def build(recipe):
             else:
                 k += 1
         return _rebuild(base, relabel=lambda ri, r: (r.label, ren.get(ri, r.auth))), recipe.get("ann_model")
+    if v == "zeronum":
+        # author numbers shifted chain by chain so that a residue inside the chain is numbered 0 (and the ones
+        # before it negative); label numbers, where the file has them, stay as they are
+        from rnapolis.common import ResidueAuth
+        pivots = {}
+        for r in base.residues:
+            if r.auth is not None:
+                pivots.setdefault(r.auth.chain, []).append(r.auth.number)
+        pivots = {ch: sorted(set(ns))[min(len(set(ns)) - 1, rng.randint(3, 12))] for ch, ns in pivots.items()}
+        return _rebuild(base, relabel=lambda ri, r: (r.label, None if r.auth is None else ResidueAuth(
+            r.auth.chain, r.auth.number - pivots[r.auth.chain], r.auth.icode, r.auth.name))), recipe.get("ann_model")
+    if v == "noring":
+        # some bases lose the ring atoms that (with the amino group) define the base-phosphate class
+        drop = {i for i in range(len(base.residues)) if rng.random() < p}
+        lost = {"A": ("N1", "C6"), "G": ("N3", "C2"), "C": ("N3", "C4")}
+        return _rebuild(base, keep_atom=lambda ri, ai, a: not (
+            ri in drop and a.name in lost.get(base.residues[ri].one_letter_name.upper(), ()))), recipe.get("ann_model")
     if v == "twomodel":
         # the structure as model 1 plus a jittered, shifted copy as model 2; model p is analysed
         from rnapolis.tertiary import Structure3D
@@ -501,6 +518,8 @@ def recipes(tier):
             out.append({"file": f, "variant": "splitres", "param": 0.3, "seed": 1})
             out.append({"file": f, "variant": "zeroocc", "param": 0.25, "seed": 1})
             out.append({"file": f, "variant": "longchain", "param": 0, "seed": 1})
+            out.append({"file": f, "variant": "zeronum", "param": 0, "seed": 1})
+            out.append({"file": f, "variant": "noring", "param": 0.3, "seed": 1})
         out.append({"file": files[2], "variant": "twomodel", "param": 1})
         out.append({"file": files[2], "variant": "twomodel", "param": 2})
         out.append({"file": "2HY9.cif", "read_model": 2, "variant": "orig"})
@@ -524,6 +543,9 @@ def recipes(tier):
                 out.append({"file": f, "variant": "splitres", "param": 0.3, "seed": k})
                 out.append({"file": f, "variant": "zeroocc", "param": 0.25, "seed": k})
             out.append({"file": f, "variant": "longchain", "param": 0, "seed": 0})
+            for k in range(2):
+                out.append({"file": f, "variant": "zeronum", "param": 0, "seed": k})
+                out.append({"file": f, "variant": "noring", "param": 0.3, "seed": k})
             for k in range(2):
                 out.append({"file": f, "variant": "shuffle", "seed": k})
             for p in (0.9, 0.93, 0.96):
